@@ -45,14 +45,20 @@ Strategies (all JSON round-trippable, forward/backward maps implemented)
     LookBackRuleFactory              yields the expansion rule of the class with the last prefix letter removed
                                      (parent differs from the expanded class and is reachable only this way)
 
-    ExpansionAtomLast                ExpansionDropStat with the atom as *last* child (equivalence forms with child index > 0)
+    ExpansionAtomLast                ExpansionDropStat with the atom as *last* child, the atom naming its statistics
+                                     differently (equivalence forms with child index > 0, maps differing per child)
     ExpansionNotSingle / RootVerified / PrependRuleFactory
                                      building blocks of the packs "reverse" and "quotient", whose specifications
                                      need Complement / Quotient rules (found by RuleDBForest only)
 
 Packs / starts / search
     PACKS: {name: () -> fresh StrategyPack};  pack_applicable(name, start) -> bool
-    START_CLASSES(tier, seed=0) -> list[Av]
+        example (= example.py, library AtomStrategy, statistics-free starts only), stat, noinitial, sym, inferral,
+        factory, rulefactory, lookback, iterative (often no specification), longverif, longverif1, finite,
+        dropstat, atomlast, zeromerge, merge, multi, addstat, reverse, quotient (the last two mostly without
+        specification unless the rule database is RuleDBForest), all.
+        Every pack generates a *finite* universe from every start class (needed by the fake-clock schedules).
+    START_CLASSES(tier, seed=0) -> list[Av]       quick: 44 fixed classes (4 of them AvBytes); thorough: ~300
     run_search(start, pack, ruledb=None, expand_verified=False, **auto_search_kwargs) -> (spec | None, searcher)
     find_spec(start, pack, ruledb=None, **auto_search_kwargs) -> spec | None
     RULEDBS: {name: () -> fresh rule database}
